@@ -38,7 +38,19 @@ theorem processMsg_seenTop {s : State} {seen : List Nat} (inv : CInv s.c s.s) (h
     (hx : x ∈ seen ∨ x ∈ (if ok && decide (s.q ≤ sg.length) then [h] else []))
     (hxe : x = (processMsg s.q s.c s.s h ⟨r, root, sg⟩ ok).1.height) :
     AtTop (processMsg s.q s.c s.s h ⟨r, root, sg⟩ ok).1 := by
-  rcases processMsg_cases s.q s.c s.s h ⟨r, root, sg⟩ ok with he | ⟨hok, hq, he⟩
+  rcases processMsg_cases s.q s.c s.s h ⟨r, root, sg⟩ ok with he | ⟨hok, hq, he⟩ | ⟨_, hlt, he⟩
+  rotate_left 2
+  · -- below quorum: nothing learned, height unchanged, the same heights are in the container
+    rw [he] at hxe ⊢
+    simp only at hxe ⊢
+    have hnl : ¬ s.q ≤ sg.length := by have : sg.length < s.q := hlt; omega
+    rcases hx with hx | hx
+    · rw [(existingMsg_height _ _ _ _ _).1] at hxe
+      have := htop x hx hxe
+      unfold AtTop at this ⊢
+      rw [(existingMsg_height _ _ _ _ _).1, existingMsg_find_isSome]
+      exact this
+    · simp [hnl] at hx
   · rw [he] at hxe ⊢
     rcases hx with hx | hx
     · exact htop x hx hxe
